@@ -10,6 +10,7 @@ CLAUSES = {
     "all-closed": "every output file is closed at the end",
     "record-values": "each record holds the state of that step (same closed form whether split or not)",
     "particle-vars": "particle variables are present in every file for all particles released so far",
+    "file-numbering": "filename_generator yields the documented sequence: <stem>_000, _001, ... for a plain name; a name ending in _<digits> continues from that number keeping the width (growing when needed), parent directory and suffix preserved",
     "counter-induction": "one Output.update() from ANY counter state satisfying the schedule invariant (records so far = ceil(step/period), position in file = records mod numrec, ...) raises nothing and re-establishes the invariant at the next step; with the base case from the constructor this covers every (Nsteps, step) without bound",
 }
 BOUNDS = {
@@ -31,6 +32,7 @@ def scenarios(tier):
                     continue
                 out.append(dict(name=f"{layout}-{'rev' if rev else 'fwd'}-{'pv' if pv else 'nopv'}", fn="run",
                                 params=dict(layout=layout, rev=rev, pv=pv, nmax=6 if q else 12, pmax=3 if q else 5, rmax=3 if q else 5), cost=10))
+    out.append(dict(name="file-numbering", fn="numbering", params={}, cost=1))
     for P in ((1, 2, 3) if q else (1, 2, 3, 4, 5, 7)):
         for R in ((0, 1, 2, 3) if q else (0, 1, 2, 3, 4, 5)):
             out.append(dict(name=f"induction-P{P}-R{R}", fn="induction", params=dict(P=P, R=R), cost=1))
@@ -145,6 +147,27 @@ def induction(W, p):
             conds.append(sink.closed == 0)
     W.prove(W.all(conds), "counter-induction", dict(P=P, R=R, due=due))
     return (P, R, due, W.truth(finished_all))
+
+
+def numbering(W, p):
+    from pathlib import Path
+
+    out = W.load("ladim.out_netcdf")
+    cases = []
+    for stem, suffix in (("out", ".nc"), ("a_b", ".nc"), ("run2", ".nc"), ("x_1_y", ".nc4"), ("cake", "")):
+        cases.append((f"sub/dir/{stem}{suffix}", [f"sub/dir/{stem}_{k:03d}{suffix}" for k in range(4)]))
+    for width in (1, 2, 3, 4):
+        for n in (0, 4, 8, 9, 10, 98, 99, 100, 998, 999, 1000, 9998):
+            if len(str(n)) > width:
+                continue
+            name = f"res/out_{n:0{width}d}.nc"
+            cases.append((name, [f"res/out_{n + k:0{width}d}.nc" for k in range(4)]))
+    cases.append(("x_1_2.nc", ["x_1_2.nc", "x_1_3.nc", "x_1_4.nc"]))
+    for name, exp in cases:
+        g = out.filename_generator(Path(name))
+        got = [str(next(g)) for _ in exp]
+        W.prove(got == exp, "file-numbering", dict(name=name, got=got, expected=exp))
+    return ("numbering", len(cases))
 
 
 def W_min(W, a, b):
